@@ -207,6 +207,7 @@ def drive(case, scratch):
     out["env"] = probe()
     n_plain = len(seen)
 
+    auto_imported = []
     if with_pf:
         import pyflyby
         import pyflyby._interactive as I
@@ -250,7 +251,14 @@ def drive(case, scratch):
                 return _orig_ast_node.__get__(obj, cls)
         P.PythonBlock.ast_node = _AstNodeProxy()
         D.ImportDB.get_default = classmethod(bomb("SDbLoad", D.ImportDB.get_default.__func__))
-        A._try_import = bomb("STryImport", A._try_import)
+        _stub_try = bomb("STryImport", A._try_import)
+
+        def _recording_try_import(imp, namespace):
+            ok = _stub_try(imp, namespace)
+            if ok:
+                auto_imported.append(str(imp).strip())
+            return ok
+        A._try_import = _recording_try_import
         I.complete_symbol = bomb("SCompletion", I.complete_symbol)
     else:
         pfdir = None
@@ -306,6 +314,7 @@ def drive(case, scratch):
         before = set(ns_names())
         buf = io.StringIO()
         pf_calls[0] = 0
+        del auto_imported[:]
         dyn_calls[0] = 0
         del pf_names[:]
         armed.clear()
@@ -349,7 +358,8 @@ def drive(case, scratch):
         r["dynimp_calls"] = dyn_calls[0]
         r["pf_first"] = list(pf_names)
         r["hits"] = dict(hits)
-        r["stdout"] = buf.getvalue()
+        r["stdout"] = buf.getvalue().replace(scratch, "<SCRATCH>")
+        r["auto_imported"] = list(auto_imported)
         r["ns_added"] = sorted(set(ns_names()) - before)
         r["ns_removed"] = sorted(before - set(ns_names()))
         return r
